@@ -63,7 +63,7 @@ public:
         if (!r->open || !r->connected) { vk::post_completion(std::move(handler), boost::system::error_code(error::not_connected), std::size_t(0)); return; }
         if (r->shut || r->broken) { vk::post_completion(std::move(handler), boost::system::error_code(error::broken_pipe), std::size_t(0)); return; }
         if (buffer_size(buffers) == 0) { vk::post_completion(std::move(handler), boost::system::error_code{}, std::size_t(0)); return; }
-        r->wdata.clear();
+        r->wdata.clear(); r->delivered_early = false;
         for (auto it = buffer_sequence_begin(buffers); it != buffer_sequence_end(buffers); ++it) {
           const_buffer b = *it; r->wdata.append(static_cast<const char*>(b.data()), b.size());
         }
